@@ -310,7 +310,8 @@ theorem stop_rendering_keeps_output_counterexample :
     `continue`; `IterAt` is the loop of the target semantics unrolled), started right after
     `loop = __M_loop._enter(vs)` on top of the enclosing contexts `outer`: the top `LoopContext` is the one of this
     loop, and `index = i`, `first ⇔ i = 0`, `last ⇔ i = n-1`, `reverse_index = n-i-1 (≥ 0)`, `odd/even` by the
-    parity of `i`, `cycle(v…) = v[i mod |v|]`, `parent` = the top of the enclosing contexts (none outside), and the
+    parity of `i`, `cycle(v…) = v[i mod |v|]`, `parent` = the top of the enclosing contexts – **`None` for the outermost
+    loop** (`outer = []`), and the chain `parent, parent.parent, …` is exactly the enclosing contexts – and the
     items still to come are `vs[i:]` – whatever the body did (nested loops, caught exceptions, calls), for every
     body the generator emits. -/
 theorem loop_context (ts : List (Tmpl × Option Bool)) (k : Nat) (sc : Scope) (x : Name) (body : Tmpl)
@@ -324,11 +325,11 @@ theorem loop_context (ts : List (Tmpl × Option Bool)) (k : Nat) (sc : Scope) (x
       (ctxOf lc).reverseIndex = (vs.length : Int) - i - 1 ∧ (rem ≠ [] → 0 ≤ (ctxOf lc).reverseIndex) ∧
       (ctxOf lc).odd = (i % 2 == 1) ∧ (ctxOf lc).even = (i % 2 == 0) ∧
       (∀ (α : Type) (vals : List α), vals ≠ [] → (ctxOf lc).cycle vals = vals[i % vals.length]?) ∧
-      parentOf σ'.loops = outer.head? := by
+      parentOf σ'.loops = outer.head? ∧ (outer = [] → parentOf σ'.loops = none) ∧ parentChain σ'.loops = outer := by
   obtain ⟨h1, h2, _, _, _, _⟩ := iterAt_loops (progOf ts k) (codegen_cfg_ok ts k) x _ ((emits body).stmts sc) vs l σ i rem
     l' σ' hI b topc rest vs 0 outer hl hσ hb hw hlp
   simp only [Nat.zero_add] at h1
-  refine ⟨⟨vs, i⟩, h1, rfl, h2, rfl, rfl, rfl, ?_, rfl, ?_, ?_, ?_, ?_, ?_⟩
+  refine ⟨⟨vs, i⟩, h1, rfl, h2, rfl, rfl, rfl, ?_, rfl, ?_, ?_, ?_, ?_, ?_, ?_, ?_⟩
   · simp only [ctxOf, LoopCtx.last]
     by_cases h : i + 1 = vs.length
     · simp only [h, beq_self_eq_true, beq_iff_eq]; omega
@@ -348,7 +349,9 @@ theorem loop_context (ts : List (Tmpl × Option Bool)) (k : Nat) (sc : Scope) (x
     cases vals with
     | nil => exact absurd rfl hv
     | cons v vt => simp [ctxOf, LoopCtx.cycle]
-  · simp [parentOf, h1]
+  · simp [parentOf, parentOfStack, h1]
+  · intro ho; simp [parentOf, parentOfStack, h1, ho]
+  · simp [parentChain, h1]
 
 /-- non-vacuous: the second iteration of a loop with `loop.index` nested in another loop context -/
 example : IterAt (progOf [] 99) 1 (stmts ⟨true, false, false, true⟩ (.expr .loopIndex [])) [['a'], ['b'], ['c']]
